@@ -256,6 +256,28 @@ SPECIAL_DATES = [('02', '29'), ('02', '30'), ('02', '28'), ('04', '31'), ('12', 
                  ('13', '01'), ('06', '00'), ('02', '00')]
 
 
+def leap_numbers(name, slices, **opts):
+    """Deterministic list: valid numbers whose date was set to 29 February of a year that is a leap year in one century
+    but not in the neighbouring one (00), of an ordinary leap year (04, 96) and to 28 February; check digits repaired."""
+    ysl, msl, dsl = slices
+    out = []
+    for v in pool(name, **opts)[:3]:
+        if not all(c.isdigit() for c in v[msl] + v[dsl] + v[ysl]):
+            continue
+        for yy, mm, dd in (('00', '02', '29'), ('04', '02', '29'), ('96', '02', '29'), ('00', '02', '28'), ('99', '12', '31')):
+            w = list(v)
+            w[msl], w[dsl] = list(mm), list(dd)
+            w[ysl] = list((v[ysl][:-2] + yy)[-len(v[ysl]):])
+            w = ''.join(w)
+            if len(w) != len(v):
+                continue
+            fixed = [(i, w[i]) for sl in (ysl, msl, dsl) for i in range(*sl.indices(len(w)))]
+            y = synth(name, w, fixed, opts)
+            if y and y not in out:
+                out.append(y)
+    return out
+
+
 def date_variants(name, slices, **opts):
     """Strategy: valid numbers of a date-carrying format whose date digits were overwritten with calendar corner cases
     (29/30 February, day 31 of short months, month/day 00, century/gender offsets added to month or day) and whose
